@@ -211,9 +211,9 @@ Proof.
   rewrite Hb. reflexivity.
 Qed.
 
-Lemma seq_app_sound a : forall b s e, m (seq_app a b) s e = m (RSeq a b) s e.
+Lemma rseq_app_sound a : forall b s e, m (rseq_app a b) s e = m (RSeq a b) s e.
 Proof.
-  induction a as [|cs|x IHx y IHy|x IHx y IHy|lo hi x IHx|n x IHx|]; intros b s e; cbn [seq_app];
+  induction a as [|cs|x IHx y IHy|x IHx y IHy|lo hi x IHx|n x IHx|]; intros b s e; cbn [rseq_app];
     try (destruct b; [symmetry; apply m_seq_eps_r|reflexivity..]).
   - symmetry. apply m_seq_eps_l.
   - rewrite m_seq_assoc. apply m_seq_ext; [reflexivity|]. intros s' e'. apply IHy.
@@ -239,7 +239,7 @@ Lemma rcopies_rep a : forall n fuel s e, (n < fuel)%nat ->
 Proof.
   induction n as [|k IH]; intros fuel s e H; rewrite rep_exact by exact H.
   - reflexivity.
-  - cbn [rcopies]. rewrite seq_app_sound, m_seq. apply flat_map_ext_in. intros [[m1 t1] e1] _.
+  - cbn [rcopies]. rewrite rseq_app_sound, m_seq. apply flat_map_ext_in. intros [[m1 t1] e1] _.
     rewrite (IH (pred fuel)) by lia. reflexivity.
 Qed.
 
@@ -249,7 +249,7 @@ Proof.
   induction r as [|cs|a IHa b IHb|a IHa b IHb|lo hi a IHa|n a IHa|]; intros s e; cbn [norm].
   - reflexivity.
   - cbn [m]. destruct s as [|c s]; [reflexivity|]. rewrite norm_cset_mem. reflexivity.
-  - rewrite seq_app_sound. apply m_seq_ext; assumption.
+  - rewrite rseq_app_sound. apply m_seq_ext; assumption.
   - cbn [m]. rewrite IHa, IHb. reflexivity.
   - assert (Hrep : m (RRep lo hi (norm a)) s e = m (RRep lo hi a) s e).
     { cbn [m]. apply rep_ext. exact IHa. }
